@@ -121,6 +121,8 @@ class Ctx:
             self.harness_errors.append(h)
         for k, v in res.get("functions", {}).items():
             self.functions[k] = v
+        if os.environ.get("VERIF_DEBUG") and res.get("wall_s", 0) > float(os.environ.get("VERIF_DEBUG")):
+            print(f"  [slow] {res.get('wall_s'):.1f}s solver={res.get('solver_s', 0):.1f}s q={res.get('solver_queries')} {res.get('key', '')}")
         for a in res.get("assumptions", []):
             self.assume(a)
         for c in res.get("cuts", []):
@@ -134,6 +136,7 @@ class Result:
     def __init__(self, instance):
         self.instance = str(instance)
         self.d = dict(
+            key=str(instance)[:200],
             instances=1, ground_instances=0, paths=0, obligations=0, discharged=0,
             solver_s=0.0, solver_queries=0, vacuity_twins=0, vacuity_ok=0, by_stage={},
             inconclusive=[], candidates=[], samples=[], nontrivial=[], harness_errors=[],
@@ -219,7 +222,11 @@ def pmap(func, items, procs=None, chunksize=1):
 
 def _guard(func, it):
     try:
-        return func(it)
+        t = time.time()
+        out = func(it)
+        if isinstance(out, dict):
+            out["wall_s"] = time.time() - t
+        return out
     except Exception:
         r = Result(it)
         r.herr("worker raised: " + traceback.format_exc()[-1500:])
